@@ -19,7 +19,7 @@ for p in "$DIR"/*.diff; do
   name=$(basename "$p" .diff)
   ( cd $M/repo && git apply "$p" ) || { echo "$name: PATCH DOES NOT APPLY"; continue; }
   alarms=""
-  for i in 01 02 03 04 05 06 07 08 09 10 11 12 13 14 15 16 17 18 19 20; do
+  for i in ${FA_CHECKS:-01 02 03 04 05 06 07 08 09 10 11 12 13 14 15 16 17 18 19 20}; do
     out=$(./check C$i "$TIER" 2>&1); code=$?
     if [ $code -ne 0 ]; then alarms="$alarms C$i=$code[$(printf '%s\n' "$out" | grep -m1 'class=' | sed 's/^ *//' | cut -c1-160)]"; fi
   done
